@@ -736,3 +736,45 @@ Example C15_example_string_loop :
   loop_s (b "http") (b "reg.test") exs_serve_s (fun _ => false) (mkCfg KTags 2 0 []) 5 0 0 exs_path [] []
   = Some (mkST [mkSR exs_path (b "n=2"); mkSR exs_path (b "last=a&n=2")] [[(b "a", [])]; [(b "b", [])]] Done).
 Proof. vm_compute. reflexivity. Qed.
+
+(* registry.Tags / registry.Repositories: the whole list the registry shows, once, in order *)
+Theorem C15_collect_all :
+  forall (L : list item) (cap : nat) (ds : nat -> decision)
+         (render : nat -> url -> url -> str) (trailer : nat -> str)
+         (resolve : url -> str -> option url) (c : cfg) (cu : cursor) (npath : nat -> str -> str) (vis : item -> bool)
+         (path : str) (fuel : nat),
+    cursor_ok cu ->
+    c_kind c <> KReferrers ->
+    NoDup (map fst L) -> (forall it, In it L -> fst it <> []) ->
+    (forall i base x, In x (map fst L) ->
+       contains c_gt (render i base (link_target ds cu npath i base x)) = false) ->
+    (forall i base x, In x (map fst L) ->
+       resolve base (render i base (link_target ds cu npath i base x)) = Some (link_target ds cu npath i base x)) ->
+    (forall i, (Z.of_N (d_doc_len (ds i)) <= eff_limit (c_limit c))%Z) ->
+    (length L < fuel)%nat ->
+    collect_all (loop (reg_serve (c_kind c) cu npath vis L cap ds render trailer) resolve (fun _ => false) c
+                      fuel 0 0 (mkUrl path []) []) = (Done, filter vis L).
+Proof. exact collect_all_listing. Qed.
+Print Assumptions C15_collect_all.
+
+(* registry.Referrers / Repository.Predecessors *)
+Theorem C15_collect_all_referrers :
+  forall (L : list item) (cap : nat) (ds : nat -> decision)
+         (render : nat -> url -> url -> str) (trailer : nat -> str)
+         (resolve : url -> str -> option url) (c : cfg) (cu : cursor) (npath : nat -> str -> str) (vis : item -> bool)
+         (path : str) (fuel : nat),
+    cursor_ok cu ->
+    c_kind c = KReferrers ->
+    NoDup (map fst L) -> (forall it, In it L -> fst it <> []) ->
+    (forall i base x, In x (map fst L) ->
+       contains c_gt (render i base (link_target ds cu npath i base x)) = false) ->
+    (forall i base x, In x (map fst L) ->
+       resolve base (render i base (link_target ds cu npath i base x)) = Some (link_target ds cu npath i base x)) ->
+    (forall i, (Z.of_N (d_doc_len (ds i)) <= eff_limit (c_limit c))%Z) ->
+    (forall i, qget k_at (d_extra (ds i)) = None) ->
+    (length L < fuel)%nat ->
+    collect_all (loop (reg_serve KReferrers cu npath vis L cap ds render trailer) resolve (fun _ => false) c
+                      fuel 0 0 (mkUrl path (referrers_query (c_at c))) []) =
+    (Done, filter_referrers (filter vis L) (c_at c)).
+Proof. exact collect_all_referrers. Qed.
+Print Assumptions C15_collect_all_referrers.
